@@ -13,7 +13,8 @@
     existing path, the double resolution of path arguments, ...). Repaired upstream in this tree and
     transcribed in the repaired form: the macro name in `assert_vfs_is_symlink!` (d5c137e),
     `assert_vfs_write_all!` on an existing file (2f59893), equality instead of `has_suffix` in
-    `assert_vfs_readlink_abs!` (777ae76).
+    `assert_vfs_readlink_abs!` (777ae76), `assert_vfs_copyfile!` comparing the BYTES of source and
+    destination (`read` + `read_to_end`) instead of their `read_all` texts.
 -/
 import Rivia.Model.MemfsOps
 
@@ -233,12 +234,13 @@ def runMacro (env : Env) (s : State) : MacroCall → MOut × State
     call env s (.copy (renderP a) (renderP b)) fun r s =>
     match r with
     | some _ =>
-      call env s (.readAll (renderP a)) fun x s =>
+      -- `$vfs.read(&src).and_then(|mut f| { read_to_end(&mut f, &mut buf)?; Ok(buf) })`: the BYTES
+      call env s (.read (renderP a)) fun x s =>
       match x with
-      | some (.str x) =>
-        call env s (.readAll (renderP b)) fun y s =>
+      | some (.bytes x) =>
+        call env s (.read (renderP b)) fun y s =>
         match y with
-        | some (.str y) =>
+        | some (.bytes y) =>
           if x ≠ y then (pm "assert_vfs_copyfile!" "src data doesn't match dst", s) else
           boolK env s (.isFile (renderP b)) fun isf s =>
           if !isf then (pm "assert_vfs_copyfile!" "dst doesn't exist", s) else (.pass, s)
